@@ -676,11 +676,16 @@ CONTRACTS = [
                "E": "all((k in E(self)) == (k in E(old(self)) or any(0 <= m and m < len(edge_list) and canon(edge_list[m]) == k for m in Int)) for k in Tuple)",
                # weighted: every insertion adds its weight (1 without a weight list), also for hyperedges repeated in the list
                "W": "implies(weighted(self), all(W(self, k) == (W(old(self), k) if k in E(old(self)) else 0) + psum(edge_list, weights, len(edge_list), k) for k in E(self)))",
+               # a stored hyperedge that does not occur in the list keeps its weight and metadata
+               "untouched": "all(implies(all(implies(0 <= m and m < len(edge_list), canon(edge_list[m]) != k) for m in Int), "
+                            "W(self, k) == W(old(self), k) and M(self, k) == M(old(self), k)) for k in E(old(self)))",
                # for a list without repeated hyperedges the fold collapses: position m adds exactly its own weight
                "W_each": f"implies(weighted(self) and {INJ}, all(W(self, canon(edge_list[m])) == (W(old(self), canon(edge_list[m])) if canon(edge_list[m]) in E(old(self)) else 0) "
                          "+ (weights[m] if weights is not None else 1) for m in Int if 0 <= m and m < len(edge_list)))",
                **NODE_MD_KEPT, **SAME_WEIGHTED},
       invariants={0: {
+          "untouched": "all(implies(all(implies(0 <= m and m < _j0, canon(edge_list[m]) != k) for m in Int), "
+                       "W(self, k) == W(old(self), k) and M(self, k) == M(old(self), k)) for k in E(old(self)))",
           "P0": "all(implies(all(implies(0 <= m and m < _j0, canon(edge_list[m]) != k) for m in Int), psum(edge_list, weights, _j0, k) == 0) for k in Tuple)",
           "P1": f"implies({INJ}, all(psum(edge_list, weights, _j0, canon(edge_list[m])) == (weights[m] if weights is not None else 1) for m in Int if 0 <= m and m < _j0))",
           "i": "i == _j0", "j": "0 <= _j0 and _j0 <= len(edge_list)", "wf": "wf(self)",
